@@ -1,5 +1,6 @@
 import Lean.Data.Json
 import Bardic.Parser.Components
+import Bardic.Parser.Content
 import Bardic.Driver.Load
 /-!
 # Driver: `pcomp` cases — one parser component on one input
@@ -18,6 +19,13 @@ def internalJson (e : Internal) : Json :=
 ASCII letters and digits, and the listed non-ASCII letters -/
 def alnumH (c : Char) : Bool := isAsciiAlpha c || isAsciiDigit c || "éßжΩ東ａ".toList.contains c || c == '٣' || c == '²'
 def digitH (c : Char) : Bool := isAsciiDigit c || c == '٣' || c == '²'
+
+partial def ctokJson : CTok → Json
+  | .text s tags => Json.mkObj ([("type", Json.str "text"), ("value", jStr s)] ++ (if tags.isEmpty then [] else [("tags", jLines tags)]))
+  | .expr c tags => Json.mkObj ([("type", Json.str "expression"), ("code", jStr c)] ++ (if tags.isEmpty then [] else [("tags", jLines tags)]))
+  | .cond c t f tags => Json.mkObj ([("type", Json.str "inline_conditional"), ("condition", jStr c),
+      ("truthy", Json.arr (t.map ctokJson).toArray), ("falsy", Json.arr (f.map ctokJson).toArray)] ++
+      (if tags.isEmpty then [] else [("tags", jLines tags)]))
 
 def runPcomp (j : Json) : Json :=
   let id := (j.getObjVal? "id").toOption.getD .null
@@ -64,6 +72,15 @@ def runPcomp (j : Json) : Json :=
        | .ok (.error .missingColon) => Json.mkObj [("diag", "missing colon")]
        | .ok (.error .unclosed) => Json.mkObj [("diag", "unclosed")]
        | .error e => internalJson e)
+    | "parse_content_line" =>
+      (match parseContentLine s with
+       | .ok toks => Json.arr (toks.map ctokJson).toArray
+       | .diag (.split .unclosed) => Json.mkObj [("diag", "unclosed")]
+       | .diag (.split .unmatchedClose) => Json.mkObj [("diag", "unmatched")]
+       | .outOfFuel => Json.mkObj [("internal", "fuel")])
+    | "parse_tags" =>
+      let (l, tags) := parseTags s
+      Json.arr #[jStr l, jLines tags]
     | "py_old" =>
       let (ls, n) := pyOld lines start
       Json.arr #[.str ("\n".intercalate (ls.map String.ofList)), .num n]
